@@ -12,7 +12,7 @@ def subst(T):
         (T + r'\(U->edgeval\(zmax\)\)', 'unpacked_node__edgeval_as_long(U, zmax)', D),
         (r'm\.from\(k\) = U->index\(zmax\);', 'VERIF_CHOOSE_CHILD(m, k, U, zmax, index);', D),
     ]
-def job(name, enforce, replace=(), props=('C15',), **kw):
+def job(name, enforce, replace=(), props=('C15', 'C16'), **kw):
     d = dict(name=name, entry='h_' + name, enforce=enforce, replace=list(replace), props=list(props))
     d.update(kw)
     return d
